@@ -37,10 +37,12 @@ type spRoute struct {
 	Med  int64  `json:"med"`
 	Loop bool   `json:"loop"`
 	Via  uint32 `json:"via"`
+	Pp   int    `json:"pp"`
 }
 
 type spStep struct {
-	Ev string  `json:"ev"`
+	Ev  string `json:"ev"`
+	Pol string `json:"pol,omitempty"`
 	P  string  `json:"p,omitempty"`
 	X  string  `json:"x,omitempty"`
 	R  spRoute `json:"r,omitempty"`
@@ -385,10 +387,61 @@ func (w *spWorld) step(st spStep) {
 		w.peers[st.P].resume()
 	case "Tick":
 		time.Sleep(time.Duration(st.D) * time.Second)
+	case "SetImp":
+		w.setPolicy(api.PolicyDirection_POLICY_DIRECTION_IMPORT, st.Pol)
+	case "SetExp":
+		w.setPolicy(api.PolicyDirection_POLICY_DIRECTION_EXPORT, st.Pol)
+	case "ResetIn":
+		w.softReset(st.P, api.ResetPeerRequest_DIRECTION_IN)
+	case "ResetOut":
+		w.softReset(st.P, api.ResetPeerRequest_DIRECTION_OUT)
+	case "ResetBoth":
+		w.softReset(st.P, api.ResetPeerRequest_DIRECTION_BOTH)
+	case "Refresh":
+		_ = w.peers[st.P].send(bgp.NewBGPRouteRefreshMessage(bgp.AFI_IP, 0, bgp.SAFI_UNICAST))
 	default:
 		w.t.Fatalf("unknown step %q", st.Ev)
 	}
 	synctest.Wait()
+}
+
+// policies of the closed family of Speaker.tla (all conditions on prefix x1)
+func (w *spWorld) definePolicies() {
+	ctx := context.Background()
+	vpMust(w.ss.s.AddDefinedSet(ctx, &api.AddDefinedSetRequest{DefinedSet: &api.DefinedSet{
+		DefinedType: api.DefinedType_DEFINED_TYPE_PREFIX, Name: "ps-x1",
+		Prefixes: []*api.Prefix{{IpPrefix: spPrefixes["x1"], MaskLengthMin: 24, MaskLengthMax: 24}},
+	}}))
+	cond := &api.Conditions{PrefixSet: &api.MatchSet{Type: api.MatchSet_TYPE_ANY, Name: "ps-x1"}}
+	pols := map[string]*api.Actions{
+		"rejx1": {RouteAction: api.RouteAction_ROUTE_ACTION_REJECT},
+		"medx1": {RouteAction: api.RouteAction_ROUTE_ACTION_ACCEPT, Med: &api.MedAction{Type: api.MedAction_TYPE_REPLACE, Value: 77}},
+		"ppx1":  {RouteAction: api.RouteAction_ROUTE_ACTION_ACCEPT, AsPrepend: &api.AsPrependAction{Asn: 65099, Repeat: 2}},
+	}
+	for name, act := range pols {
+		vpMust(w.ss.s.AddPolicy(ctx, &api.AddPolicyRequest{Policy: &api.Policy{
+			Name:       name,
+			Statements: []*api.Statement{{Name: "st-" + name, Conditions: cond, Actions: act}},
+		}}))
+	}
+}
+
+func (w *spWorld) setPolicy(dir api.PolicyDirection, pol string) {
+	var pl []*api.Policy
+	if pol != "acc" {
+		pl = []*api.Policy{{Name: pol}}
+	}
+	vpMust(w.ss.s.SetPolicyAssignment(context.Background(), &api.SetPolicyAssignmentRequest{Assignment: &api.PolicyAssignment{
+		Name: "global", Direction: dir, Policies: pl, DefaultAction: api.RouteAction_ROUTE_ACTION_ACCEPT,
+	}}))
+}
+
+func (w *spWorld) softReset(target string, dir api.ResetPeerRequest_Direction) {
+	addr := "all"
+	if target != "all" {
+		addr = w.peers[target].addr.String()
+	}
+	_ = w.ss.s.ResetPeer(context.Background(), &api.ResetPeerRequest{Address: addr, Soft: true, Direction: dir})
 }
 
 func (w *spWorld) release(name string) {
@@ -437,6 +490,7 @@ func spRun(t *testing.T, tr *vpTrace, tid int, b *spBehaviour) {
 		for _, n := range names {
 			w.addPeer(n)
 		}
+		w.definePolicies()
 		synctest.Wait()
 		tr.Emit(map[string]any{"ev": "Reset", "tid": tid, "peers": b.Peers})
 		for _, st := range b.Steps {
@@ -453,6 +507,9 @@ func spRun(t *testing.T, tr *vpTrace, tid int, b *spBehaviour) {
 			}
 			if st.Ev == "Ann" || st.Ev == "ApiAdd" {
 				row["r"] = st.R
+			}
+			if st.Pol != "" {
+				row["pol"] = st.Pol
 			}
 			tr.Emit(row)
 		}
